@@ -36,6 +36,10 @@ def strategy(tier):
         "cwd": st.sampled_from(["elsewhere", "elsewhere", "input", "subdir"]),
         # entries sharing one base name: a directory and a file called gen.cmake in different places, dup.cmake at two depths
         "samename": st.sampled_from([None, None, "e", "s", "u"]),
+        # the input path passes through a symbolic link (patterns use the spelling given on the command line), and/or
+        # another input is documented first in the same invocation
+        "via_link": st.sampled_from([False, False, True]),
+        "other_first": st.sampled_from([False, False, True]),
     })
 
 
@@ -129,7 +133,14 @@ def evaluate(case):
         res.labels.append("same-base-name-entries")
     with S.Sandbox("c15") as sb:
         inp = sb.path("in")
-        S.materialize(tree, inp)
+        if case.get("via_link"):
+            os.makedirs(sb.path("real"))
+            os.symlink("real", sb.path("via"))
+            inp = sb.path("via", "in")
+            S.materialize(tree, sb.path("real", "in"))
+            res.labels.append("input-through-symlink")
+        else:
+            S.materialize(tree, inp)
         cwd = sb.path("cwd")
         if case.get("cwd") == "input":
             cwd = inp                 # bare-name patterns then also name entries of the working directory
@@ -158,6 +169,13 @@ def evaluate(case):
                 f.write("input:\n  exclude_filters:\n" + "".join(f"    - {p!r}\n" for p in by_src["u"]))
         out = sb.path("out")
         argv = [inp, "-o", out, "-s", cfg]
+        if case.get("other_first"):
+            first = sb.path("else", "zz_first")
+            os.makedirs(first)
+            with open(os.path.join(first, "zz_f.cmake"), "w") as f:
+                f.write("function(zz_first_fn)\nendfunction()\n")
+            argv = [first] + argv
+            res.labels.append("another-input-first")
         if case["recursive"]:
             argv.append("-r")
         for p in by_src["e"]:
@@ -170,6 +188,10 @@ def evaluate(case):
         input_excluded = any(T.pattern_matches(p, inp, True) for p in plist)
         got = S.snapshot(out) if os.path.isdir(out) else {}
         got_files = {p for p, v in got.items() if v[0] != "dir"}
+        if case.get("other_first"):
+            got_files.discard("zz_f.rst")            # the other input's own page
+            if input_excluded:
+                got_files.discard("index.rst")       # ... and its index
         if input_excluded:
             res.labels.append("input-excluded")
             if got_files:
